@@ -109,6 +109,18 @@ func c04Run(c *fw.Ctx, base types.EnvType, id string, ast types.MalType, text st
 			return
 		}
 		c.Count("cancelled_ctx_runs", 1)
+		// 3a. nil context (EVAL guards for it; the README's example passes none): still no panic may escape
+		if !strings.Contains(text, "future") {
+			var o5 hx.Outcome
+			func() {
+				o5 = hx.Eval(nil, ast, mk()) //nolint:staticcheck // deliberate
+			}()
+			if o5.Panicked {
+				c.Violate(fw.Violation{Key: "panic@" + o5.Site + ":nil-ctx:" + c04Head(class), What: "EVAL with a nil context let a Go panic escape: " + o5.PanicMsg, Detail: o5.Stack})
+				return
+			}
+			c.Count("nil_ctx_runs", 1)
+		}
 		// 3b. the same form as text through REPL / REPLWithPreamble / ReadEvalWithPreamble (READ + EVAL + PRINT of the result)
 		if isText {
 			for ri, route := range []func(context.Context, types.EnvType, string, *types.Position) (types.MalType, error){lisp.REPL, lisp.REPLWithPreamble, lisp.ReadEvalWithPreamble} {
